@@ -112,7 +112,7 @@ def corpus_tools(d: str):
                     "tool": tool, "job": job, "env": tool.get("requirements", {}).get("EnvVarRequirement", {}).get("envDef", {})})
 
     mk("env-shell-active", {"requirements": {"EnvVarRequirement": {"envDef": {"SFVT_A": "$HOME `id`", "SFVT_B": "plain value"}}}}, {},
-       "env:shell-active-value")
+       None)
     mk("array-unquoted", {"inputs": {"a": {"type": "string[]", "inputBinding": {"prefix": "-x"}}}}, {"a": ["two words", "$HOME", "it's"]},
        "argv:array-input-not-shell-quoted")
     mk("array-itemsep-space", {"inputs": {"a": {"type": "int[]", "inputBinding": {"prefix": "-x", "itemSeparator": " "}}}}, {"a": [22, 48]},
@@ -192,8 +192,8 @@ class C30(Property):
     thorough_budget_s = 7200
     min_nontrivial = 20
     rule = ("(i) quoting: random words over an alphabet of shell metacharacters, quotes, whitespace, unicode and the empty string: Lean "
-            "shlexQuote vs Python shlex.quote, Lean parseCmd vs shlex.split and vs the original words; (ii) environment: random values: "
-            "Lean parse of export K=\"v\" vs what /bin/sh really exports; (iii) whole-runner differential: random CommandLineTools (1..6 bound "
+            "shlexQuote vs Python shlex.quote, Lean parseCmd vs shlex.split and vs the original words; (ii) environment: random values through the real "
+            "create_command, its output executed by /bin/sh, vs the Lean rendering model (generated quoting style); (iii) whole-runner differential: random CommandLineTools (1..6 bound "
             "inputs of type string/int/float/boolean/File/enum/optional/array/record with position, prefix, separate, itemSeparator, "
             "item bindings, valueFrom; arguments; ShellCommandRequirement with shellQuote:false; EnvVarRequirement; stdin/stdout/stderr) whose "
             "baseCommand dumps argv / SFVT_* environment / stdin as JSON, run by StreamFlow and by cwltool in fresh processes with private "
@@ -218,7 +218,7 @@ class C30(Property):
                  "splitting round trip + differential runs against cwltool")
     level_text = ("grade C (kernel): argv_eq_spec / command_string_eq_spec prove that on the modelled binding fragment StreamFlow builds the same "
                   "elements, order and quoting flags as the standard; quote_roundtrip and argv_verbatim prove that every quoted element reaches "
-                  "the tool verbatim for every string; env_eq_spec_partial with the witness env_eq_spec_false for export K=\"v\"; everything "
+                  "the tool verbatim for every string; env_eq_spec proves the same for EnvVarRequirement values (full strength after fix 1a0529c); everything "
                   "else (floats, JavaScript valueFrom, records, staging, redirections, the real shell) is differential validation against cwltool")
     level_note = ("Lean kernel, axioms within {propext, Classical.choice, Quot.sound}; binding and shell models are hand-written and compared on "
                   "every run with shlex, /bin/sh and with the argv both runners really pass")
@@ -226,7 +226,7 @@ class C30(Property):
     def _quoting(self, ctx: Ctx) -> None:
         rng = ctx.rng
         alphabet = list("ab z'\"$`\\;|&*?~#()<>{}[]!%=,:./-_é日\t\n") + ["", "--", "$("]
-        n = 400 if ctx.tier == "quick" else 4000
+        n = 200 if ctx.tier == "quick" else 4000
         lines, words = [], []
         for i in range(n):
             ws = list(G.STRINGS) if i == 0 else ["".join(rng.choice(alphabet) for _ in range(rng.randint(0, 6))) for _ in range(rng.randint(1, 4))]
@@ -244,28 +244,32 @@ class C30(Property):
                 ctx.disagree("parseCmd round trip", f"{ws}: Lean parse {parsed}", {"op": "quote", "words": ws})
             if shlex.split(" ".join(shlex.quote(w) for w in ws)) != ws:
                 ctx.fail("shlex:roundtrip", f"shlex.split(shlex.quote) differs on {ws}", {"op": "quote", "words": ws})
-        # environment values through a real /bin/sh
-        vals = list(G.ENV_SAFE) + list(G.ENV_ACTIVE) + ["".join(rng.choice(alphabet) for _ in range(rng.randint(0, 6))) for _ in range(60 if ctx.tier == "quick" else 600)]
-        vals = [v for v in vals if "\n" not in v and "\x00" not in v]
+        # environment values: the REAL create_command, its output run by a real /bin/sh, against the Lean rendering model
+        from streamflow.core.utils import create_command
+
+        vals = list(G.ENV_SAFE) + list(G.ENV_ACTIVE) + ["new\nline", "tab\there", "''", '""'] + \
+            ["".join(rng.choice(alphabet) for _ in range(rng.randint(0, 6))) for _ in range(60 if ctx.tier == "quick" else 600)]
+        vals = [v for v in vals if "\x00" not in v]
         got = ctx.lean("Drivers/C30.lean", ["env " + hx(v) for v in vals])
         for v, g in zip(vals, got):
             m = g.split(":", 1)[1]
-            ctx.case({"op": "env", "value": v}, ("env", v), "env")
-            if m != "none":
-                try:
-                    p = subprocess.run(["/bin/sh", "-c", f'export K="{v}" && printenv K'], capture_output=True, text=True, timeout=20,
-                                       stdin=subprocess.DEVNULL, cwd=ctx.scratch)
-                    real = p.stdout[:-1] if p.stdout.endswith("\n") else p.stdout
-                except subprocess.TimeoutExpired:
-                    real = "<timeout>"
-                # the model predicts what the shell makes of `"v"` (it refuses — `none` — whenever the shell would expand)
-                predicted = _unhex_list(m)
-                if predicted != [real]:
-                    ctx.disagree("dq rendering model vs /bin/sh", f"value {v!r}: sh exports {real!r}, Lean parse {predicted}", {"op": "env", "value": v})
-                if not any(c in v for c in '$`\\"') and real != v:
-                    ctx.fail("env:inert-value-not-verbatim", f"value {v!r} without $ ` \\ \" is exported as {real!r}", {"op": "env", "value": v})
+            predicted = None if m == "none" else _unhex_list(m)
+            ctx.case({"op": "env", "value": v, "model": predicted}, ("env", v), "env")
+            cmd = create_command(class_name="C30", command=["printenv", "K"], environment={"K": v}, workdir=ctx.scratch)
+            try:
+                p = subprocess.run(["/bin/sh", "-c", cmd], capture_output=True, text=True, timeout=20, stdin=subprocess.DEVNULL)
+                real = p.stdout[:-1] if p.stdout.endswith("\n") else p.stdout
+            except subprocess.TimeoutExpired:
+                real = "<timeout>"
+            if predicted != [real]:
+                ctx.disagree("environment rendering model vs create_command + /bin/sh",
+                             f"value {v!r}: the tool would see {real!r}, Lean parse of the rendering {predicted}", {"op": "env", "value": v})
+            if real != v:
+                ctx.fail("env:shell-active-value" if any(c in v for c in '$`\\"') else "env:value-not-verbatim",
+                         f"EnvVar value {v!r} reaches the process as {real!r} (command: {cmd[-120:]!r})", {"op": "env", "value": v})
 
     def explore(self, ctx: Ctx) -> None:
+        C.enable_bytecode_cache()
         self._quoting(ctx)
         C.warm_up()
         rng = ctx.rng
@@ -273,7 +277,7 @@ class C30(Property):
         for d in descs:
             d["corpus"] = True
         ctx.corpus_replayed += len(descs)
-        nrand = {"quick": 14, "thorough": 200}[ctx.tier] * (2 if ctx.mode == "search" else 1)
+        nrand = {"quick": 6, "thorough": 200}[ctx.tier] * (2 if ctx.mode == "search" else 1)
         for i in range(nrand):
             dd = os.path.join(ctx.scratch, f"rand{ctx.mode}{i}")
             desc = G.gen_tool(rng, dd, G.SAFE_FEATURES, env_mode="safe")
